@@ -57,6 +57,10 @@ func (l *lengthFieldPrepender) HandleWrite(ctx netty.OutboundContext, message ne
 		length += l.lengthFieldLength
 	}
 
+	// the length must be representable in the length field
+	utils.AssertIf(length < 0 || (l.lengthFieldLength < 8 && int64(length) >= int64(1)<<(8*uint(l.lengthFieldLength))),
+		"length (%d) does not fit into %d byte(s)", length, l.lengthFieldLength)
+
 	// head buffer
 	lengthBuff := packFieldLength(l.byteOrder, l.lengthFieldLength, int64(length))
 
